@@ -80,6 +80,13 @@ def boundary_programs():
                                                   extra=[{"d": "option", "name": "max_bytes", "v": gen.lit(mb)}])])
         one("max_bytes=%d for 1+16 bits ext" % mb, [msg("Top", True, [(U(1), 1)],
                                                         extra=[{"d": "option", "name": "max_bytes", "v": gen.lit(mb)}])])
+    for mb in (8191, 8192, 8193, 65535, 65536, 1 << 20):
+        # a generous limit on a small message; and the largest message there is (65535 bits = 8192 bytes)
+        one("max_bytes=%d for 17 bits" % mb, [msg("Top", False, [(U(17), 1)],
+                                                  extra=[{"d": "option", "name": "max_bytes", "v": gen.lit(mb)}])])
+        if mb <= 8193:
+            one("max_bytes=%d for 65535 bits" % mb, [msg("Top", False, [(arr(B, 8191), 1), (U(7), 2)],
+                                                         extra=[{"d": "option", "name": "max_bytes", "v": gen.lit(mb)}])])
     for al in (0, 1, 8):
         one("alignment=%d" % al, [{"d": "option", "name": "c.struct_packing_alignment", "v": gen.lit(al)},
                                   msg("Top", False, [(U(3), 1)])])
